@@ -15,4 +15,4 @@ require (
 	golang.org/x/term v0.29.0 // indirect
 )
 
-replace github.com/junegunn/fzf => /tmp/seedtry-4406
+replace github.com/junegunn/fzf => /repo
